@@ -2,7 +2,9 @@
    (19 1 w tag n) from_usize ; (19 2 w tag) zero/one ; (19 3 w tag op a b) operators, all
    owned/borrowed forms ; (19 4 tag op abits bbits) float forms agree bit for bit ;
    (19 5 ty A B C s) -((A*B+C)*s) on Matrix<user type> ; (19 6 ty X Y s) ((x+y)*s).y on
-   Tensor<user type> ; (19 7 ty n) Trace / Record constants.
+   Tensor<user type> ; (19 7 ty n) Trace / Record constants ; (19 8 ty op (an ad) (bn bd)) Trace
+   operators, four forms + both negations ; (19 9 ty op ka a kb b) Record operators, all forms,
+   ka kb = 0 constant / 1 variable on tape A / 2 variable on tape B.
    tag: 0 u8 1 i8 2 u16 3 i16 4 u32 5 i32 6 u64 7 i64 8 u128 9 i128 10 usize 11 isize 12 f32
    13 f64 ; w: 0 plain 1 Wrapping 2 Saturating ; ty: 0 Rat 1 Fp 2 Wrapping<i64>."""
 from tools.vlib import sx, MAXU
@@ -166,6 +168,26 @@ def gen(tier, rng):
     for ty in range(3):
         for n in bc + [rng.randrange(MAXU + 1) for _ in range(50)]:
             yield sx([19, 7, ty, n])
+    # ---- Trace / Record operators through every operand form, at Rat, Fp and Wrapping<i64>
+    def divisor(ty):
+        # Wrapping<i64> panics on a zero divisor; the derivative divides by y * y as well
+        if ty == 2:
+            return rng.choice([-1, 1, 2, -3, 7, rng.randrange(1, 2 ** 31), -rng.randrange(1, 2 ** 31)])
+        return nonzero(ty, rng) if rng.random() < 0.9 else value(ty, rng)
+    for _ in range(3000 if quick else 40000):
+        ty = rng.randrange(3)
+        op = rng.randrange(5)
+        bn = divisor(ty) if op == 3 else value(ty, rng)
+        yield sx([19, 8, ty, op, [value(ty, rng), value(ty, rng)], [bn, value(ty, rng)]])
+    for rep in range(25 if quick else 400):
+        for ty in range(3):
+            for op in range(5):
+                for ka in range(3):
+                    for kb in range(3):
+                        if op == 4 and kb != 0:
+                            continue
+                        b = divisor(ty) if op == 3 else value(ty, rng)
+                        yield sx([19, 9, ty, op, ka, value(ty, rng), kb, b])
 
 
 def nontrivial(case, model_out):
